@@ -2,7 +2,7 @@
 From Coq Require Import ZArith.
 From Coq Require Import Reals.
 From Flocq Require Import Core.
-From MP Require Import Algo.Base Algo.Libmpf Spec.Mpf Spec.Round Proofs.Normalize Proofs.Ops Proofs.Format Proofs.Fin.
+From MP Require Import Algo.Base Algo.Libmpf Spec.Mpf Spec.Round Proofs.Normalize Proofs.Ops Proofs.Format Proofs.Fin Proofs.BcMore.
 Open Scope Z_scope.
 
 Theorem C10_normalize_bc_le : forall sign man exp bc prec r,
@@ -42,6 +42,15 @@ Proof. exact mpf_div_bc_le. Qed.
 Theorem C10_sqrt_bc_le : forall s prec r y, regular s -> msign s = 0 -> 0 < prec -> mpf_sqrt s prec r = Ok y -> mbc y <= prec.
 Proof. exact mpf_sqrt_bc_le. Qed.
 Print Assumptions C10_sqrt_bc_le.
+
+Theorem C10_mod_bc_le : forall s t prec r y, fincanon s -> regular t -> 0 < prec -> mpf_mod s t prec r = Ok y -> mbc y <= prec.
+Proof. exact mpf_mod_bc_le. Qed.
+Theorem C10_pow_bc_le : forall s n prec r, regular s -> 0 < prec -> mbc (mpf_pow_int_pos s n prec r) <= prec.
+Proof. exact mpf_pow_int_pos_bc_le. Qed.
+Theorem C10_pow_neg_bc_le : forall s p prec r y, regular s -> 0 < prec -> mpf_pow_int s (Zneg p) prec r = Ok y ->
+  fincanon y /\ mbc y <= prec.
+Proof. exact mpf_pow_int_neg_bc_le. Qed.
+Print Assumptions C10_pow_neg_bc_le.
 
 (* non-vacuity: an 8-bit input really is cut down *)
 Example C10_witness : mbc (normalize 0 201 0 8 3 RF) = 2.
